@@ -167,3 +167,6 @@ def run(R, tier):
         if len(news) != 1:
             bad.append("%d tokenizers constructed on one path" % len(news))
     R.check(not bad and n_new >= 1, "R06.8", "run:message-bytes", "the tokenizer is constructed once, from the message bytes as given", "; ".join(sorted(set(bad))[:3]))
+    # ---- R06.9 whole messages: what each handler is handed, end to end -------------------------------------------------------------
+    from . import msgtable as MT
+    MT.check(R, "R06.9", "params", tier, "Node::run on whole messages: a handler pulling k required and j optional parameters is handed exactly the elements of its own unit (kind and payload bytes, strings / blocks / expressions with separators inside), -109 when a required one is missing, -108 when one is left over, and never an element of the next unit", 300)
